@@ -1,5 +1,6 @@
 import Utcp.Large
 import Utcp.Sha1
+import Utcp.ByteScript
 /-!
 # The scenario interpreter (line protocol shared with `harness/drv.cpp`)
 
@@ -609,6 +610,7 @@ def World.exec (w : World) (op : String) (args : List String) : World :=
         | .ok b' rest =>
           if rest != sentinel then w.say "codec mismatch position"
           else if b' == expectView b then w.say s!"codec ok {enc.length}" else w.say "codec mismatch fields"
+    | "bbs" => w.say (BB.bbScript args)
     | "bbbits" =>
       let nbits := n 0 % 2049
       let bits := (bytesToBits (payloadBytes (n 2) 300)).take nbits
